@@ -294,6 +294,12 @@ def unhex_of(it, s: VStr, exc=None) -> VBytes:
             return VBytes(bytes.fromhex(s.conc) if exc == "fromhex" else _binascii.a2b_hex(s.conc))
         except ValueError:
             it.raise_(_binascii.Error if exc != "fromhex" else ValueError, "non-hexadecimal")
+    # structural laws H1/H3: unhex(hex(b)) == b and unhex(upper(hex(b))) == b  (validated differentially)
+    inner = s.e
+    if z3.is_app(inner) and inner.decl().name() == "UPPER":
+        inner = inner.arg(0)
+    if z3.is_app(inner) and inner.decl().name() == "HEX":
+        return VBytes(inner.arg(0))
     if not it.branch(ISHEX(s.e)):
         it.raise_(_binascii.Error if exc != "fromhex" else ValueError, "non-hexadecimal")
     t = UNHEX(s.e)
